@@ -25,6 +25,23 @@ CHECKS = {
             "a rotating palette of failing sub-expressions and evaluated under both runners.",
             "Trusted: TLC, the renderer/classifier of the harness. Outcomes the statement leaves open are marked indefinite "
             "in the spec and never compared.", "5/C02"),
+    "C06": ("TLA+ spec CelSyntax (independent precedence-climbing Parse, minimal-parenthesis Render, FullParen) checked by TLC "
+            "(Parse(Render(t)) = t); every generated tree's token sequences parsed by the library under both tree classes and "
+            "round-tripped through tree_dump; corpus texts validated by TLC trace spec Trace_C06",
+            "TLC grows syntax trees by wrapping in every operand position of every construct (chains to depth 2-3, all operator "
+            "pairs/triples) plus all binary combinations of depth-1 trees; the round-trip laws hold on the specification; the "
+            "library must build exactly the specified tree from Render(t) and Full(t) (separator variants) and again after "
+            "tree_dump; in the other direction every conformance-corpus text the library parses must get the tree the "
+            "specification's parser builds from the same tokens.",
+            "Trusted: TLC, the lark-tree normaliser and the token renderer of the harness. Lexical maximal munch (signs glued "
+            "to numbers, 'in' glued to identifiers) is out of model.", "5/C06"),
+    "C08": ("TLA+ spec CelValue (Eq, Lt, six relations per type) checked by TLC for the coherence laws; every pair of every "
+            "same-type pool replayed (literals and bound variables, both runners); random values validated by Trace_C08",
+            "TLC enumerates all ordered pairs of 14 same-type value pools (boundary integers, signed zeros and infinities, "
+            "non-BMP strings, timestamps, durations, nested lists and permuted maps) and checks reflexivity, symmetry, negation, "
+            "trichotomy, converse, transitivity and container congruence on the specification; the implementation must return "
+            "the specified truth value for each of the six relations.",
+            "Trusted: TLC, BigInt, the literal renderer (own calendar arithmetic for timestamp spellings). NaN excluded.", "5/C08"),
 }
 NOT_YET = "check not built yet in this phase (planned per DESIGN.md section 5)"
 
